@@ -142,7 +142,8 @@ PROPS = {
     ),
     "C10": dict(
         module="OrbitModel.Properties.C10",
-        theorems=["Orbit.C10.rejected_never_block", "Orbit.C10.valid_entries_of_a_mixed_batch_are_merged", "Orbit.C10.pinned_tree_blocks_valid"],
+        theorems=["Orbit.C10.rejected_never_block", "Orbit.C10.valid_entries_of_a_mixed_batch_are_merged", "Orbit.C10.refused_heads_are_never_fetched",
+                  "Orbit.C10.refused_head_was_fetched_before_the_fix", "Orbit.C10.pinned_tree_blocks_valid"],
         families=[("forge", 150, 4000, 10)],
         corr_fields={"values", "heads", "idx", "len", "sync"},
         nontrivial=lambda lines: any(l.startswith("op inject") and "," in l.split("heads=")[1].split()[0] for l in lines if "heads=" in l) or any("extra=" in l for l in lines),
@@ -163,7 +164,7 @@ PROPS = {
     ),
     "C12": dict(
         module="OrbitModel.Properties.C12",
-        theorems=["Orbit.C12.no_message_panics", "Orbit.C12.listener_survives_any_stream", "Orbit.C12.only_complete_heads_loaded",
+        theorems=["Orbit.C12.no_message_panics", "Orbit.C12.listener_survives_any_stream", "Orbit.C12.only_complete_admitted_heads_loaded",
                   "Orbit.C12.later_valid_messages_handled", "Orbit.C12.no_length_prefix_panics",
                   "Orbit.C12.frame_guard_tied_to_go_text", "Orbit.C12.pinned_tree_panics"],
         families=[("garbage", 120, 4000, 10), ("transport", 40, 1500, 6)],
@@ -299,7 +300,7 @@ MANIFEST_TEXT = {
         note="Trusted: Lean kernel + standard axioms; the bus model (broadcast to every listener; which listeners filter on what) is hand-written from base_store.go and validated by the multidb family; runtime delivery timing of the libp2p eventbus is sampled, not proved.",
         technique="Lean 4 proof (listener filter case analysis over a broadcast model) with differential correspondence on multi-database instances"),
     "C10": dict(
-        text="Kernel-checked theorems: for every cancellation-free history mixing rejected and foreign heads with valid ones in any position and any fetch order, re-announcing heads and running the replicator to quiescence lists every accepted reachable entry and no rejected one; a mixed batch merges every acceptable single-entry log whatever else it contains. Pinned-tree witnesses (batch aborted, valid entries never refetched) are decide-checked and were replayed on the real store before the fix: commit. The forge family checks on the real stores that after an honest re-announcement every acknowledged write is listed everywhere.",
+        text="Kernel-checked theorems: for every cancellation-free history mixing rejected and foreign heads with valid ones in any position and any fetch order, re-announcing heads and running the replicator to quiescence lists every accepted reachable entry and no rejected one; a mixed batch merges every acceptable single-entry log whatever else it contains; a head the access controller refuses is never handed to the replicator (so a non-writer cannot start a fetch that never ends — finding F18, repaired). Pinned-tree witnesses (batch aborted, valid entries never refetched) are decide-checked and were replayed on the real store before the fix: commit. The forge family checks on the real stores that after an honest re-announcement every acknowledged write is listed everywhere.",
         note="Liveness is proved for the canonical fair scheduler (drain) with explicit fuel, safety (closure invariant, 'at rest means complete') for every schedule; the replicator model is hand-written and tied end-to-end (its bookkeeping counters are printed, not yet replayed step by step).",
         technique="Lean 4 proof (transition-system invariants + termination measure) with differential correspondence on adversarial announcements"),
     "C11": dict(
